@@ -82,6 +82,10 @@ pub fn epochs(log: &[IoEv]) -> Vec<Epoch> {
     out
 }
 
+pub fn apply_unit(image: &mut [u8], u: &Unit) {
+    apply(image, u)
+}
+
 fn apply(image: &mut [u8], u: &Unit) {
     let o = u.off as usize;
     let b = u.bytes();
@@ -693,6 +697,24 @@ pub fn check_history(
         examine(cfg, ob, d.cut, &img, &desc, opts, 0, None, seen, &mut stats, &mut findings);
     }
     (stats, findings)
+}
+
+/// Recover and judge a single image (no nesting); returns (recoveries run, findings).
+pub fn examine_one(
+    cfg: &Cfg,
+    ob: &Obligations,
+    cut: usize,
+    img: &[u8],
+    desc: &str,
+    opts: &CrashOpts,
+    seen: &Mutex<HashSet<u128>>,
+) -> (u64, Vec<Finding>) {
+    let mut stats = CrashStats::default();
+    let mut out = Vec::new();
+    if seen.lock().unwrap().insert(hash128(img) ^ ((cut as u128) << 64)) {
+        examine(cfg, ob, cut, img, desc, opts, 0, None, seen, &mut stats, &mut out);
+    }
+    (stats.recoveries, out)
 }
 
 pub fn tables_keys(t: &Tables) -> Vec<Vec<u8>> {
